@@ -68,3 +68,43 @@ mod kani_harness {
     #[kani::proof] #[kani::unwind(11)] fn k_c07_bits_to_octets() { contract_bits_to_octets(&mut KaniCtx) }
     #[kani::proof] #[kani::unwind(26)] fn k_c07_long_bits_to_octets() { contract_bits_to_octets_long(&mut KaniCtx) }
 }
+
+
+/// C04 — named numbers in bounds are resolved against the governing type: `find_tld_or_enum_value_by_name`
+/// prefers the definition whose name is the governing type, and only then falls back to any definition that
+/// declares the identifier; a value assignment of that name wins over both.
+/// Bounded stand-in (native): 2..=3 INTEGER/ENUMERATED types that may declare the same identifier with different numbers.
+pub fn contract_named_number_lookup<C: Ctx>(cx: &mut C) {
+    #[cfg(not(kani))]
+    {
+        use crate::intermediate::types::*;
+        const NAMES: [&str; 3] = ["Alpha", "Beta", "Gamma"];
+        let k = 2 + cx.choose(2);
+        let mut declares = [false; 3];
+        let mut as_enum = [false; 3];
+        let mut tlds: BTreeMap<String, ToplevelDefinition> = BTreeMap::new();
+        for i in 0..k {
+            declares[i] = cx.any_bool();
+            as_enum[i] = cx.any_bool();
+            let number = 10 * (i as i128 + 1);
+            let ty = if as_enum[i] {
+                ASN1Type::Enumerated(Enumerated { members: if declares[i] { vec![Enumeral { name: "hi".into(), description: None, index: number }] } else { vec![Enumeral { name: "other".into(), description: None, index: 1 }] }, extensible: None, constraints: vec![] })
+            } else {
+                ASN1Type::Integer(Integer { constraints: vec![], distinguished_values: Some(if declares[i] { vec![DistinguishedValue { name: "hi".into(), value: number }] } else { vec![DistinguishedValue { name: "other".into(), value: 1 }] }) })
+            };
+            tlds.insert(NAMES[i].into(), ToplevelDefinition::Type(ToplevelTypeDefinition { comments: String::new(), tag: None, name: NAMES[i].into(), ty, parameterization: None, module_header: None }));
+        }
+        let governing = cx.choose(k);
+        cx.describe(|| format!("types={:?} governing_type={}", (0..k).map(|i| format!("{}{}", NAMES[i], if declares[i] { format!(" declares hi({})", 10 * (i + 1)) } else { String::new() })).collect::<Vec<_>>(), NAMES[governing]));
+        let got = find_tld_or_enum_value_by_name(&NAMES[governing].to_string(), &"hi".to_string(), &tlds);
+        if declares[governing] {
+            vob!(cx, "C04.named_number.resolved_against_the_governing_type", got == Some(ASN1Value::Integer(10 * (governing as i128 + 1))));
+        } else if (0..k).any(|i| declares[i]) {
+            vob!(cx, "C04.named_number.falls_back_to_a_declaring_type", matches!(got, Some(ASN1Value::Integer(v)) if (0..k).any(|i| declares[i] && v == 10 * (i as i128 + 1))));
+        } else {
+            vob!(cx, "C04.named_number.unknown_identifier_is_not_resolved", got.is_none());
+        }
+    }
+    #[cfg(kani)]
+    { let _ = cx; }
+}
